@@ -354,7 +354,7 @@ def run_same_region(ctx, cmd, prefix, n, corpus, a_key, b_key, band_fn, r2_fn, e
 def run_c17(ctx):
     band = lambda m: geom.closed_edges(m['subject']) + geom.closed_edges(m['clip'] or [])
     ent = lambda m: dict(_c01_entry(m), variant=m.get('variant'), v_subject=m.get('v_subject'), v_clip=m.get('v_clip'), v_ct=m.get('v_ct'), v_fr=m.get('v_fr'))
-    return run_same_region(ctx, 'c17', 'c17-', _tier(ctx, 500, 10000), 'none', 'out_base', 'out_variant_in_base_frame',
+    return run_same_region(ctx, 'c17', 'c17-', _tier(ctx, 1000, 10000), 'none', 'out_base', 'out_variant_in_base_frame',
                            band, lambda m: 4, ent, lambda m: 'respelling %s (clip type %d, fill rule %d)' % (m.get('variant'), m['ct'], m['fr']))
 
 
@@ -844,8 +844,8 @@ def run_c13(ctx):
             k = BAND_KEY
         elif conf and bits >= 32:
             k = OVERFLOW_KEY
-        elif (m.get('op') or '').startswith('InflatePaths64') and mj and int(mj.group(1)) == 1 and max(abs(x) for x in m['v']) >= 2 ** 47:
-            k = 'offset-square-join-absolute-coordinates'   # Square joins, translation beyond 2^47
+        elif (m.get('op') or '').startswith('InflatePaths64') and mj and int(mj.group(1)) in (0, 1) and max(abs(x) for x in m['v']) >= 2 ** 45:
+            k = 'offset-square-join-absolute-coordinates'   # doSquare (Square joins, and Miter joins beyond the miter limit), translation beyond 2^45
         v = {'key': k, 'kind': 'magnitude', 'detail': {'corpus_entry': entry, 'checker': res, 'confirmed': conf, 'max_difference_bits': bits}}
         if conf:
             v['text'] = '%s (clip type %d, fill rule %d): region differs at point (%s, %s), windings %s; largest coordinate difference has %d bits' % (what, ct, fr, conf['point'][0], conf['point'][1], conf['windings'], bits)
@@ -1390,6 +1390,21 @@ def run_c10(ctx):
         et = m['et']
         if len(line) == 1 and et == 1:
             return 'joined-single-point-vanishes'
+        if kind == 'f' and m['jt'] == 1 and conf and len(line) >= 3:
+            # Square join at a vertex that turns back on itself within 2.56 degrees (cos of the angle between the edge
+            # normals below -0.999): offsetPoint does not take its "concave" branch there, so doSquare is also run on
+            # the inner side, where its corners reach sqrt(1 + (1/cos a + tan a)^2) * delta <= 1.4304 delta
+            import math as _m
+            pts = line + ([line[0], line[1]] if et == 1 else [])
+            sharp = False
+            for i in range(1, len(pts) - 1):
+                ax, ay = pts[i][0] - pts[i - 1][0], pts[i][1] - pts[i - 1][1]
+                bx, by = pts[i + 1][0] - pts[i][0], pts[i + 1][1] - pts[i][1]
+                la, lb = _m.hypot(ax, ay), _m.hypot(bx, by)
+                if la > 0 and lb > 0 and (ax * bx + ay * by) / (la * lb) < -0.999:
+                    sharp = True
+            if sharp and conf.get('min_dist2_to_band') is not None and _m.sqrt(conf['min_dist2_to_band']) <= 1.4304 * m['delta'] + m['tol'] and conf.get('marginal_only'):
+                return 'square-join-u-turn-reach'
         capless = et in (2, 3, 4) or (et == 1 and len(line) <= 2)   # a 2-point Joined path is stroked as Square/Round ended
         if capless and kind in ('b', 'p'):
             if len(line) <= 2:
